@@ -48,80 +48,111 @@ func timedBody(c *vlib.Ctx, kind int, section, caseID string, r *vlib.Rand, step
 		if atomic.LoadInt32(gaveUp) != 0 {
 			return
 		}
-		caps := [2]int{[]int{0, 1, 2, 5}[r.Intn(4)], []int{0, 1, 2, 5}[r.Intn(4)]}
-		q := newQ(kind, caps)
-		T := q.name()
-		installGuard(q, 64)
-		// "after-clear": filled, cleared while non-empty, then one element put: it must come out
-		variant := []string{"empty", "empty", "non-empty", "late-producer", "after-clear"}[r.Intn(5)]
-		lane := r.Intn(q.lanes())
-		id := mkID(lane, 0, 1+r.Intn(1000))
-		step.Store(fmt.Sprintf("%s t=%d %s: set-up", T, t, variant))
-		var prodDone chan struct{}
-		switch variant {
-		case "non-empty":
+		timedOne(c, kind, r, "timed", t, "", 0, step, gaveUp)
+	}
+}
+
+// timedOne is one timed get with its oracle: a fresh queue, one of the variants (drawn when
+// variant is ""), GetTimeout(t), the verdicts. pfx ("timed" / "tdelta") names the counters. delta is the process-wide clock correction
+// (dateutil.SetDelta) the caller has installed; it is only recorded here. The verdicts are the
+// same under every delta: the property speaks of the timeout that has elapsed, not of what any
+// wall clock shows. Returns the elapsed time of the GetTimeout call and what it returned;
+// done is false when the case had been given up by its watchdog in the meantime.
+func timedOne(c *vlib.Ctx, kind int, r *vlib.Rand, pfx string, t int, variant string, delta int64, step *atomic.Value, gaveUp *int32) (el time.Duration, v interface{}, done bool) {
+	caps := [2]int{[]int{0, 1, 2, 5}[r.Intn(4)], []int{0, 1, 2, 5}[r.Intn(4)]}
+	q := newQ(kind, caps)
+	T := q.name()
+	installGuard(q, 64)
+	// "after-clear": filled, cleared while non-empty, then one element put: it must come out
+	drawn := []string{"empty", "empty", "non-empty", "late-producer", "after-clear"}[r.Intn(5)]
+	if variant == "" {
+		variant = drawn
+	}
+	lane := r.Intn(q.lanes())
+	id := mkID(lane, 0, 1+r.Intn(1000))
+	where := fmt.Sprintf("%s t=%d %s", T, t, variant)
+	if delta != 0 {
+		where += fmt.Sprintf(" clock-delta=%dms", delta)
+	}
+	step.Store(where + ": set-up")
+	var prodDone chan struct{}
+	switch variant {
+	case "non-empty":
+		q.put(lane, id)
+	case "after-clear":
+		for k := r.Range(1, 3); k > 0; k-- {
+			q.put(r.Intn(q.lanes()), mkID(0, 1, 5000+k))
+		}
+		q.clear()
+		q.put(lane, id)
+	case "late-producer":
+		prodDone = make(chan struct{})
+		delay := time.Duration(r.Intn(2*t*1000+200)) * time.Microsecond
+		go func() {
+			time.Sleep(delay)
 			q.put(lane, id)
-		case "after-clear":
-			for k := r.Range(1, 3); k > 0; k-- {
-				q.put(r.Intn(q.lanes()), mkID(0, 1, 5000+k))
-			}
-			q.clear()
-			q.put(lane, id)
-		case "late-producer":
-			prodDone = make(chan struct{})
-			delay := time.Duration(r.Intn(2*t*1000+200)) * time.Microsecond
-			go func() {
-				time.Sleep(delay)
-				q.put(lane, id)
-				close(prodDone)
-			}()
+			close(prodDone)
+		}()
+	}
+	// workload shaping only: start away from the last tenth of a wall-clock millisecond, where
+	// the verdict would hinge on the agreement of two different clocks to a few microseconds
+	for time.Now().UnixNano()%1e6 > 9e5 {
+	}
+	step.Store(where + ": GetTimeout")
+	t0 := time.Now()
+	v = q.getTimeout(t)
+	el = time.Since(t0)
+	step.Store(where + ": after GetTimeout")
+	if atomic.LoadInt32(gaveUp) != 0 {
+		return el, v, false
+	}
+	detail := map[string]interface{}{"type": T, "variant": variant, "timeout_ms": t, "elapsed_ns": el.Nanoseconds(), "returned": fmt.Sprint(v)}
+	if pfx != "timed" {
+		detail["clock_delta_ms"] = delta
+		detail["how"] = "dateutil.SetDelta(clock_delta_ms) before the call (what an agent does after a time sync with the server), nothing else differs from the delta-0 run"
+	}
+	limit := time.Duration(t)*time.Millisecond - time.Millisecond
+	switch {
+	case v == nil && (variant == "non-empty" || variant == "after-clear"):
+		c.Fail(T+".GetTimeout:wrong-element", "GetTimeout on a non-empty queue returned nil", detail)
+	case v == nil:
+		if el < limit {
+			c.Fail(T+".GetTimeout:early-empty-return", fmt.Sprintf("GetTimeout(%d) returned empty-handed after %v (< %v)", t, el, limit), detail)
 		}
-		// workload shaping only: start away from the last tenth of a wall-clock millisecond, where
-		// the verdict would hinge on the agreement of two different clocks to a few microseconds
-		for time.Now().UnixNano()%1e6 > 9e5 {
-		}
-		step.Store(fmt.Sprintf("%s t=%d %s: GetTimeout", T, t, variant))
-		t0 := time.Now()
-		v := q.getTimeout(t)
-		el := time.Since(t0)
-		step.Store(fmt.Sprintf("%s t=%d %s: after GetTimeout", T, t, variant))
-		if atomic.LoadInt32(gaveUp) != 0 {
-			return
-		}
-		detail := map[string]interface{}{"type": T, "variant": variant, "timeout_ms": t, "elapsed_ns": el.Nanoseconds(), "returned": fmt.Sprint(v)}
-		limit := time.Duration(t)*time.Millisecond - time.Millisecond
-		switch {
-		case v == nil && (variant == "non-empty" || variant == "after-clear"):
-			c.Fail(T+".GetTimeout:wrong-element", "GetTimeout on a non-empty queue returned nil", detail)
-		case v == nil:
-			if el < limit {
-				c.Fail(T+".GetTimeout:early-empty-return", fmt.Sprintf("GetTimeout(%d) returned empty-handed after %v (< %v)", t, el, limit), detail)
-			}
+		if pfx == "timed" {
 			c.Count(fmt.Sprintf("timed_empty_returns_t%d", t), 1)
 			c.Max(fmt.Sprintf("max_timed_empty_elapsed_us_t%d", t), el.Microseconds())
-		default:
-			if variant == "empty" || v != interface{}(id) {
-				c.Fail(T+".GetTimeout:wrong-element", fmt.Sprintf("GetTimeout returned %v, expected %s", v, map[bool]string{true: "nil", false: fmtID(id)}[variant == "empty"]), detail)
+		} else {
+			c.Count("tdelta_empty_returns", 1)
+			c.Max("max_tdelta_empty_overshoot_us", el.Microseconds()-int64(t)*1000) // evidence only
+		}
+	default:
+		if variant == "empty" || v != interface{}(id) {
+			c.Fail(T+".GetTimeout:wrong-element", fmt.Sprintf("GetTimeout returned %v, expected %s", v, map[bool]string{true: "nil", false: fmtID(id)}[variant == "empty"]), detail)
+		}
+		c.Count(pfx+"_element_returns", 1)
+	}
+	if prodDone != nil {
+		step.Store(where + ": waiting for the late producer's Put")
+		<-prodDone // bounded by the case's watchdog
+		if v == nil {
+			if got := q.getNoWait(); got != interface{}(id) {
+				c.Fail(T+":conservation", fmt.Sprintf("element put during an expired GetTimeout is not in the queue afterwards (got %v)", got), detail)
 			}
-			c.Count("timed_element_returns", 1)
-		}
-		if prodDone != nil {
-			step.Store(fmt.Sprintf("%s t=%d %s: waiting for the late producer's Put", T, t, variant))
-			<-prodDone // bounded by the case's watchdog
-			if v == nil {
-				if got := q.getNoWait(); got != interface{}(id) {
-					c.Fail(T+":conservation", fmt.Sprintf("element put during an expired GetTimeout is not in the queue afterwards (got %v)", got), detail)
-				}
-			}
-		}
-		if q.size() != 0 {
-			c.Fail(T+".Size:wrong-value", fmt.Sprintf("Size()=%d after the timed get, expected 0", q.size()), detail)
-		}
-		c.Count("timed_gets", 1)
-		c.SetAdd("timed_variants", fmt.Sprintf("%s/%s/t=%d", T, variant, t))
-		c.DistinctStr(fmt.Sprint("timed", T, variant, t, caps, id))
-		if t == 20 && wantSample(c, "timed") {
-			c.Sample(map[string]interface{}{"section": "timed", "case": detail})
 		}
 	}
+	if q.size() != 0 {
+		c.Fail(T+".Size:wrong-value", fmt.Sprintf("Size()=%d after the timed get, expected 0", q.size()), detail)
+	}
+	c.Count(pfx+"_gets", 1)
+	if pfx == "timed" {
+		c.SetAdd("timed_variants", fmt.Sprintf("%s/%s/t=%d", T, variant, t))
+	} else {
+		c.SetAdd("tdelta_variants", fmt.Sprintf("%s/%s/delta=%dms", T, variant, delta))
+	}
+	c.DistinctStr(fmt.Sprint(pfx, T, variant, t, caps, id, delta))
+	if t == 20 && wantSample(c, pfx) {
+		c.Sample(map[string]interface{}{"section": pfx, "case": detail})
+	}
+	return el, v, true
 }
